@@ -3,9 +3,11 @@ package main
 import (
 	"bytes"
 	"context"
+	"crypto/sha256"
 	"encoding/asn1"
 	"fmt"
 	"sort"
+	"sync"
 	"time"
 
 	eddsa "github.com/IBM/TSS/mpc/binance/eddsa"
@@ -33,6 +35,9 @@ func factories(scheme string, msgLen int) (tss.KeyGenFactory, tss.SignerFactory)
 	switch scheme {
 	case "bls":
 		return func(id uint16) tss.KeyGenerator { return &bls.TBLS{Party: id, Logger: nopLogger{}} },
+			func(id uint16) tss.Signer { return newHelloSigner(id) }
+	case "bls-plain":
+		return func(id uint16) tss.KeyGenerator { return &bls.TBLS{Party: id, Logger: nopLogger{}} },
 			func(id uint16) tss.Signer { return &bls.TBLS{Party: id, Logger: nopLogger{}} }
 	case "ps":
 		return func(id uint16) tss.KeyGenerator {
@@ -45,6 +50,78 @@ func factories(scheme string, msgLen int) (tss.KeyGenFactory, tss.SignerFactory)
 			func(id uint16) tss.Signer { return eddsa.NewParty(id, nopLogger{}) }
 	}
 	panic("unknown scheme")
+}
+
+// helloSigner makes the (non-interactive) BLS partial signing interactive in the way every real multi-round signing
+// protocol is: a party sends one point-to-point message to every other participant of the session and returns its
+// partial signature once it has heard from all of them. (Without that, a party may finish and remove its pre-signing
+// synchroniser before a slower party's query arrives: known finding KF-C01-fastsigner.)
+type helloSigner struct {
+	*bls.TBLS
+	mu      sync.Mutex
+	cond    *sync.Cond
+	parties []uint16
+	send    func(msg []byte, isBroadcast bool, to uint16)
+	heard   map[uint16]bool
+}
+
+func newHelloSigner(id uint16) *helloSigner {
+	h := &helloSigner{TBLS: &bls.TBLS{Party: id, Logger: nopLogger{}}, heard: map[uint16]bool{}}
+	h.cond = sync.NewCond(&h.mu)
+	return h
+}
+
+func (h *helloSigner) Init(parties []uint16, threshold int, sendMsg func(msg []byte, isBroadcast bool, to uint16)) {
+	h.TBLS.Init(parties, threshold, sendMsg)
+	h.mu.Lock()
+	h.parties, h.send = parties, sendMsg
+	h.mu.Unlock()
+}
+
+func (h *helloSigner) ClassifyMsg(msg []byte) (uint8, bool, error) {
+	if len(msg) == 1 && msg[0] == 0x68 {
+		return 1, false, nil
+	}
+	return 0, false, fmt.Errorf("unknown message")
+}
+
+func (h *helloSigner) OnMsg(msg []byte, from uint16, _ bool) {
+	if len(msg) == 1 && msg[0] == 0x68 {
+		h.mu.Lock()
+		h.heard[from] = true
+		h.mu.Unlock()
+		h.cond.Broadcast()
+	}
+}
+
+func (h *helloSigner) Sign(ctx context.Context, digest []byte) ([]byte, error) {
+	h.mu.Lock()
+	parties, send := h.parties, h.send
+	h.mu.Unlock()
+	for _, p := range parties {
+		if p != h.TBLS.Party {
+			send([]byte{0x68}, false, p)
+		}
+	}
+	stop := make(chan struct{})
+	defer close(stop)
+	go func() {
+		select {
+		case <-ctx.Done():
+			h.cond.Broadcast()
+		case <-stop:
+		}
+	}()
+	h.mu.Lock()
+	for len(h.heard) < len(parties)-1 {
+		if ctx.Err() != nil {
+			h.mu.Unlock()
+			return nil, ctx.Err()
+		}
+		h.cond.Wait()
+	}
+	h.mu.Unlock()
+	return h.TBLS.Sign(ctx, digest)
 }
 
 // buildStack creates n real Schemes on a fresh network.
@@ -156,8 +233,109 @@ func checkBLSSubsets(s *out.Sink, c stackCfg, shares map[uint16][]byte, digests 
 	}
 }
 
+// fastSignerScenario: the schedule of known finding KF-C01-fastsigner, steered (without breaking the FIFO order of any link).
+// Two parties, loud mode, the plain (non-interactive) BLS signer. Whoever sends its query of the pre-signing
+// synchronisation second, after it has already answered the first party's query, has that query delayed until the first
+// party — which has meanwhile received everything it needs, signed and removed its pre-signing synchroniser — returned.
+func fastSignerScenario(r *prng.R, s *out.Sink) {
+	for attempt := 0; attempt < 12; attempt++ {
+		if fastSignerAttempt(r, s, attempt) {
+			return
+		}
+	}
+	s.Count("sign/fast-signer-scenario/inconclusive")
+}
+
+func fastSignerAttempt(r *prng.R, s *out.Sink, attempt int) bool {
+	ids := []uint16{1, 2}
+	c := stackCfg{scheme: "bls-plain", mode: "loud", n: 2, t: 2, ids: ids, msgLen: 0}
+	net, nodes := buildStack(r, c)
+	defer net.stop()
+	res := keygenAll(nodes, ids, 2, 2, 60*time.Second)
+	for _, id := range ids {
+		if res[id].err != nil {
+			s.Violate("C01", fmt.Sprintf("KeyGen failed at party %d in a fault-free run: %v", id, res[id].err), "fast-signer scenario")
+			return true
+		}
+		nodes[id].SetStoredData(res[id].data)
+	}
+	topic := fmt.Sprintf("fast-signer-topic-%d", attempt)
+	h1 := sha256.Sum256([]byte(topic))
+	h2 := sha256.Sum256(h1[:])
+	var mu sync.Mutex
+	var first uint16 // who queried first
+	responded := map[uint16]bool{}
+	returned := map[uint16]bool{}
+	held := false
+	net.mu.Lock()
+	net.onSend = func(from, to uint16, m *tss.IncMessage) {
+		if m.MsgType != uint8(tss.MsgTypeSync) || !bytes.Equal(m.Topic, h2[:]) || len(m.Data) == 0 {
+			return
+		}
+		mu.Lock()
+		defer mu.Unlock()
+		if m.Data[0] == 2 && first == 0 {
+			first = from
+		}
+		if m.Data[0] == 3 {
+			responded[from] = true
+		}
+	}
+	net.hold = func(from, to uint16, m *tss.IncMessage) bool {
+		if m.MsgType != uint8(tss.MsgTypeSync) || !bytes.Equal(m.Topic, h2[:]) || len(m.Data) == 0 || m.Data[0] != 2 {
+			return false
+		}
+		mu.Lock()
+		defer mu.Unlock()
+		if first != 0 && from != first && responded[from] && !returned[first] {
+			held = true
+			return true
+		}
+		return false
+	}
+	net.mu.Unlock()
+	digest := sha([]byte("m"))
+	type rr struct {
+		id  uint16
+		err error
+	}
+	ch := make(chan rr, 2)
+	for _, id := range ids {
+		id := id
+		go func() {
+			ctx, cancel := context.WithTimeout(context.Background(), 2*time.Second)
+			defer cancel()
+			_, err := nodes[id].Sign(ctx, digest, topic)
+			mu.Lock()
+			returned[id] = true
+			mu.Unlock()
+			net.cond.Broadcast()
+			ch <- rr{id, err}
+		}()
+	}
+	errs := map[uint16]error{}
+	for range ids {
+		x := <-ch
+		errs[x.id] = x.err
+	}
+	mu.Lock()
+	defer mu.Unlock()
+	if !held {
+		return false // the second party had queried before it answered: nothing to delay on a FIFO link
+	}
+	s.Count("sign/fast-signer-scenario/steered")
+	s.N++
+	second := uint16(3) - first
+	if errs[first] == nil && errs[second] != nil {
+		s.Violate("C01", fmt.Sprintf("fast-signer race: with a non-interactive signer, party %d completed the pre-signing synchronisation, signed and removed its synchroniser before the query of party %d arrived; the Sign of party %d fails with %v", first, second, second, errs[second]),
+			"2 parties, loud mode, plain BLS signer; the second party's pre-signing query reaches the first party after it returned (FIFO links kept)")
+	}
+	return true
+}
+
 func runFullStack(r *prng.R, s *out.Sink, tier string) {
 	threshold.SyncInterval = 4 * time.Millisecond
+	fastSignerScenario(r.Fork(), s)
 	type nt struct{ n, t int }
 	nts := []nt{{2, 2}, {3, 2}, {4, 3}}
 	schedules := 2
